@@ -148,6 +148,14 @@ Section Monitor.
     | l :: r => match step s l with Some s' => run s' r | None => None end
     end.
 
+  (* the list of completed sections read as a SEQUENTIAL execution of the calls, one after the
+     other, from state s0 to state s: every entry (t, o, r) returned r from the state its
+     predecessors left behind (Conc_Proofs.linearisable: the history of every reachable state is one) *)
+  Inductive seq_exec (s0 : S) : list (nat * op * res) -> S -> Prop :=
+  | seq_nil : seq_exec s0 [] s0
+  | seq_snoc : forall h s1 t o r s2 sg, seq_exec s0 h s1 -> body o s1 = Ret s2 r sg ->
+      seq_exec s0 (h ++ [(t, o, r)]) s2.
+
   (* A thread that is outside every call gets a new list of calls.  NOT a label of [step]: it is
      the hook by which a component whose threads decide what to call next from unguarded reads
      or from the result of the previous call (ThreadPool's worker loop, C15) embeds this
@@ -228,6 +236,7 @@ Arguments quiescent {S op res} body s.
 Arguments finished {op} th.
 Arguments count {op} f ths.
 Arguments nwaiting {S op res} c s.
+Arguments seq_exec {S op res} body s0 _ _.
 Arguments set_prog {S op res} t p s.
 Arguments rank {op} th.
 Arguments tsum {op} f ths.
